@@ -49,11 +49,12 @@ impl Var {
     fn parse(s: &str) -> Option<Var> {
         ALL_VARS.iter().copied().find(|v| v.name() == s)
     }
-    fn simpler(self) -> Option<Var> {
+    /// simpler variants, simplest first (delta debugging)
+    fn simpler(self) -> Vec<Var> {
         match self {
-            Var::NoPk => None,
-            Var::Pk => Some(Var::NoPk),
-            _ => Some(Var::Pk),
+            Var::NoPk => vec![],
+            Var::Pk => vec![Var::NoPk],
+            _ => vec![Var::NoPk, Var::Pk],
         }
     }
     fn create_sql(self) -> Vec<String> {
@@ -158,7 +159,8 @@ impl Op {
             Op::DelAll => vec![Op::Del(1)],
             Op::Trunc => vec![Op::Del(1), Op::DelAll],
             Op::Prep(a, b) => vec![Op::Ins(1), Op::Ins(a), Op::Ins2(1, 2), Op::Ins2(a, b), Op::Prep(1, 2)],
-            Op::CIdx | Op::AddCol | Op::CreateU | Op::InsU => vec![],
+            Op::InsU => vec![Op::Ins(1)],
+            Op::CIdx | Op::AddCol | Op::CreateU => vec![],
         };
         let r = rank(self);
         c.into_iter().filter(|o| rank(*o) < r).collect()
@@ -292,7 +294,20 @@ impl RunKey {
     fn twin(&self) -> RunKey {
         RunKey { maint: vec![], ..self.clone() }
     }
+    /// op pattern with the maintenance points marked `M`; keys are renamed a,b,c by first appearance so
+    /// that histories differing only by a key permutation share a signature
     fn pattern(&self) -> String {
+        let mut seen: Vec<u8> = vec![];
+        let mut letter = |k: u8| -> char {
+            let i = match seen.iter().position(|x| *x == k) {
+                Some(i) => i,
+                None => {
+                    seen.push(k);
+                    seen.len() - 1
+                }
+            };
+            (b'a' + i as u8) as char
+        };
         let mut toks: Vec<String> = vec![];
         for s in 0..=self.steps() {
             for (p, _) in &self.maint {
@@ -303,7 +318,21 @@ impl RunKey {
             if s == 0 {
                 toks.push(format!("T:{}", self.var.name()));
             } else if s <= self.ops.len() {
-                toks.push(self.ops[s - 1].name());
+                toks.push(match self.ops[s - 1] {
+                    Op::Ins(k) => format!("INS[{}]", letter(k)),
+                    Op::Ins2(a, b) => {
+                        let (x, y) = (letter(a), letter(b));
+                        format!("INS2[{x}{y}]")
+                    }
+                    Op::Upd(k) => format!("UPD[{}]", letter(k)),
+                    Op::Del(k) => format!("DEL[{}]", letter(k)),
+                    Op::TxnIns(k) => format!("TXN_INS[{}]", letter(k)),
+                    Op::Prep(a, b) => {
+                        let (x, y) = (letter(a), letter(b));
+                        format!("PREP[{x}{y}]")
+                    }
+                    o => o.name(),
+                });
             }
         }
         toks.join("+")
@@ -360,6 +389,8 @@ struct Trace {
     stats: RunStats,
     rows_final: usize,
     index_plan: bool,
+    /// upper bound of the row ids handed out so far (rows of INSERT statements attempted + compensation inserts)
+    ids_upper: u64,
 }
 
 fn same(a: &Res, b: &Res) -> bool {
@@ -484,7 +515,7 @@ fn observe_all(t: &TestDb, out: &mut Vec<(&'static str, String, Res)>) {
     q("count", "SELECT COUNT(*) FROM t".into());
 }
 
-fn do_maint(t: &mut TestDb, m: Maint, cfg: Cfg, comp: bool, ids_upper: &mut u64, armed: &mut bool, st: &mut RunStats) -> Result<(), String> {
+fn do_maint(t: &mut TestDb, m: Maint, cfg: Cfg, burn: u64, ids_upper: &mut u64, armed: &mut bool, st: &mut RunStats) -> Result<(), String> {
     st.maint_by_kind[ALL_MAINT.iter().position(|x| *x == m).unwrap()] += 1;
     match m {
         Maint::Ckpt => {
@@ -531,16 +562,14 @@ fn do_maint(t: &mut TestDb, m: Maint, cfg: Cfg, comp: bool, ids_upper: &mut u64,
             if *armed {
                 let _ = t.exec("PRAGMA wal_checkpoint_threshold=1");
             }
-            if comp {
-                // KF-C04-01 avoidance: the row-id counter restarts at 1 on open; advance it past
-                // every id handed out so far by (possibly failing) inserts into the side table
-                let n = *ids_upper;
-                for _ in 0..n {
-                    let _ = t.exec("INSERT INTO zz (x) VALUES (0)");
-                }
-                st.burned += n;
-                *ids_upper += n;
+            // KF-C04-01 avoidance: the global row-id counter restarts at 1 on open; restore its exact
+            // pre-reopen value (measured by a calibration run) by (possibly failing) inserts into the side
+            // table zz — every attempt consumes one id
+            for _ in 0..burn {
+                let _ = t.exec("INSERT INTO zz (x) VALUES (0)");
             }
+            st.burned += burn;
+            *ids_upper += burn;
             Ok(())
         }
     }
@@ -556,68 +585,133 @@ fn tick(slot: usize, t0: std::time::Instant) -> std::time::Instant {
     now
 }
 
-fn execute(scratch: &std::path::Path, name: &str, k: &RunKey) -> Trace {
-    let t0 = std::time::Instant::now();
-    let mut tr = Trace { steps: vec![], maint_fail: None, obs: vec![], stats: RunStats::default(), rows_final: 0, index_plan: false };
-    let mut t = match TestDb::create(scratch, name) {
-        Ok(t) => t,
-        Err(e) => {
-            tr.maint_fail = Some((0, format!("Database::create failed: {e}")));
-            return tr;
+/// (variant, stop step, ops executed before it, cfg, maintenance performed before it)
+type CalKey = (Var, u8, Vec<Op>, Cfg, MaintList);
+
+/// executes histories; owns the memo of calibrated row-id counter values
+struct Runner {
+    scratch: std::path::PathBuf,
+    calib: HashMap<CalKey, u64>,
+    calib_runs: u64,
+}
+
+impl Runner {
+    /// Value of the database-global row-id counter just before maintenance op number `mi` (at step `s`)
+    /// of `k`, measured on a separate calibration database: run the same prefix, insert one row into a
+    /// fresh table `cal` (it receives id C), reopen (counter restarts at 1 — known finding KF-C04-01) and
+    /// count the attempts until an INSERT into `cal` collides with that row.  0 = no collision observed
+    /// (the counter survives a reopen: nothing to compensate).
+    fn counter_before(&mut self, k: &RunKey, s: usize, mi: usize, depth: usize) -> u64 {
+        let ck: CalKey = (k.var, s as u8, k.ops[..s.saturating_sub(1).min(k.ops.len())].to_vec(), k.cfg, k.maint[..mi].to_vec());
+        if let Some(c) = self.calib.get(&ck) {
+            return *c;
         }
-    };
-    if let Err(e) = apply_cfg(&t, k.cfg) {
-        tr.maint_fail = Some((0, format!("initial pragma failed: {e}")));
-        return tr;
+        self.calib_runs += 1;
+        let (tr, t) = self.drive(&format!("c{depth}"), k, Some((s, mi)), depth + 1);
+        let c = match t {
+            None => 0,
+            Some(mut t) => {
+                let limit = tr.ids_upper + 2;
+                let _ = t.exec("CREATE TABLE cal(x INT)");
+                let _ = t.exec("INSERT INTO cal (x) VALUES (0)");
+                let mut c = 0;
+                if t.reopen().is_ok() {
+                    for j in 1..=limit {
+                        if !t.exec("INSERT INTO cal (x) VALUES (1)").ok() {
+                            c = j;
+                            break;
+                        }
+                    }
+                }
+                c
+            }
+        };
+        if self.calib.len() > 300_000 {
+            self.calib.clear();
+        }
+        self.calib.insert(ck, c);
+        c
     }
-    if k.comp {
-        let _ = t.exec("CREATE TABLE zz(x INT)");
+
+    fn execute(&mut self, name: &str, k: &RunKey) -> Trace {
+        self.drive(name, k, None, 0).0
     }
-    let mut ids_upper = 0u64;
-    let mut armed = false;
-    let n = k.steps();
-    let t0 = tick(0, t0);
-    for s in 0..=n {
-        for (p, m) in &k.maint {
-            if *p as usize == s {
-                if let Err(e) = do_maint(&mut t, *m, k.cfg, k.comp, &mut ids_upper, &mut armed, &mut tr.stats) {
+
+    /// run `k`; with `stop = Some((s, mi))` return the open database just before that maintenance op
+    fn drive(&mut self, name: &str, k: &RunKey, stop: Option<(usize, usize)>, depth: usize) -> (Trace, Option<TestDb>) {
+        let t0 = std::time::Instant::now();
+        let mut tr = Trace { steps: vec![], maint_fail: None, obs: vec![], stats: RunStats::default(), rows_final: 0, index_plan: false, ids_upper: 0 };
+        let scratch = self.scratch.clone();
+        let mut t = match TestDb::create(&scratch, name) {
+            Ok(t) => t,
+            Err(e) => {
+                tr.maint_fail = Some((0, format!("Database::create failed: {e}")));
+                return (tr, None);
+            }
+        };
+        if let Err(e) = apply_cfg(&t, k.cfg) {
+            tr.maint_fail = Some((0, format!("initial pragma failed: {e}")));
+            return (tr, None);
+        }
+        if k.comp {
+            let _ = t.exec("CREATE TABLE zz(x INT)");
+        }
+        let mut armed = false;
+        let n = k.steps();
+        let t0 = tick(0, t0);
+        for s in 0..=n {
+            for (mi, (p, m)) in k.maint.iter().enumerate() {
+                if *p as usize != s {
+                    continue;
+                }
+                if stop == Some((s, mi)) {
+                    return (tr, Some(t));
+                }
+                let burn = if k.comp && m.is_reopen() { self.counter_before(k, s, mi, depth).saturating_sub(1) } else { 0 };
+                let mut iu = tr.ids_upper;
+                let r = do_maint(&mut t, *m, k.cfg, burn, &mut iu, &mut armed, &mut tr.stats);
+                tr.ids_upper = iu;
+                if let Err(e) = r {
                     tr.maint_fail = Some((s, e));
-                    return tr;
+                    return (tr, None);
                 }
             }
-        }
-        if s == n {
-            break;
-        }
-        let res = if s == 0 {
-            k.var.create_sql().iter().map(|q| t.exec(q)).collect::<Vec<_>>()
-        } else {
-            let op = k.ops[s - 1];
-            ids_upper += op.insert_rows();
-            let r = op_exec(&t, k.var, op, s);
-            if armed && matches!(op, Op::TxnIns(_) | Op::TxnUpdAll) {
-                tr.stats.auto_ckpt_commits += 1;
+            if s == n {
+                break;
             }
-            r
-        };
-        tr.stats.statements += res.len() as u64;
-        tr.steps.push(res);
-    }
-    let t0 = tick(1, t0);
-    if k.maint.is_empty() {
-        // vacuity evidence only (not compared): does the a-lookup use the secondary index?
-        if let Some(plan) = sqlh::explain(t.db(), "SELECT * FROM t WHERE a = 1") {
-            tr.index_plan = plan.contains("Index");
+            let res = if s == 0 {
+                k.var.create_sql().iter().map(|q| t.exec(q)).collect::<Vec<_>>()
+            } else {
+                let op = k.ops[s - 1];
+                tr.ids_upper += op.insert_rows();
+                let r = op_exec(&t, k.var, op, s);
+                if armed && matches!(op, Op::TxnIns(_) | Op::TxnUpdAll) {
+                    tr.stats.auto_ckpt_commits += 1;
+                }
+                r
+            };
+            tr.stats.statements += res.len() as u64;
+            tr.steps.push(res);
         }
+        if stop.is_some() {
+            return (tr, None);
+        }
+        let t0 = tick(1, t0);
+        if k.maint.is_empty() {
+            // vacuity evidence only (not compared): does the a-lookup use the secondary index?
+            if let Some(plan) = sqlh::explain(t.db(), "SELECT * FROM t WHERE a = 1") {
+                tr.index_plan = plan.contains("Index");
+            }
+        }
+        observe_all(&t, &mut tr.obs);
+        if let Some((_, _, Res::Rows(r))) = tr.obs.iter().find(|(k, _, _)| *k == "rows") {
+            tr.rows_final = r.len();
+        }
+        let t0 = tick(2, t0);
+        drop(t);
+        tick(3, t0);
+        (tr, None)
     }
-    observe_all(&t, &mut tr.obs);
-    if let Some((_, _, Res::Rows(r))) = tr.obs.iter().find(|(k, _, _)| *k == "rows") {
-        tr.rows_final = r.len();
-    }
-    let t0 = tick(2, t0);
-    drop(t);
-    tick(3, t0);
-    tr
 }
 
 #[derive(Clone, Debug)]
@@ -683,6 +777,7 @@ fn diff(key: &RunKey, twin: &Trace, run: &Trace) -> Option<Diff> {
 
 struct Engine<'a> {
     ctx: &'a Ctx,
+    runner: Runner,
     twins: HashMap<RunKey, Rc<Trace>>,
     memo: HashMap<RunKey, Option<Diff>>,
     runs: u64,
@@ -695,7 +790,7 @@ struct Engine<'a> {
 
 impl<'a> Engine<'a> {
     fn new(ctx: &'a Ctx) -> Self {
-        Engine { ctx, twins: HashMap::new(), memo: HashMap::new(), runs: 0, shrink_runs: 0, acc: RunStats::default(), plant: ctx.opt("plant").is_some() }
+        Engine { ctx, runner: Runner { scratch: ctx.scratch.clone(), calib: HashMap::new(), calib_runs: 0 }, twins: HashMap::new(), memo: HashMap::new(), runs: 0, shrink_runs: 0, acc: RunStats::default(), plant: ctx.opt("plant").is_some() }
     }
     fn twin(&mut self, key: &RunKey) -> Rc<Trace> {
         let tk = key.twin();
@@ -706,13 +801,13 @@ impl<'a> Engine<'a> {
             self.twins.clear();
         }
         self.runs += 1;
-        let t = Rc::new(execute(&self.ctx.scratch, "a", &tk));
+        let t = Rc::new(self.runner.execute("a", &tk));
         self.twins.insert(tk, t.clone());
         t
     }
     fn run(&mut self, key: &RunKey) -> Trace {
         self.runs += 1;
-        let mut t = execute(&self.ctx.scratch, "b", key);
+        let mut t = self.runner.execute("b", key);
         self.acc.ckpt_frames_moved += t.stats.ckpt_frames_moved;
         self.acc.ckpt_wal_truncated += t.stats.ckpt_wal_truncated;
         self.acc.reopens += t.stats.reopens;
@@ -788,16 +883,16 @@ impl<'a> Engine<'a> {
                 }
             }
             // 3. simpler schema variant
-            while let Some(v) = cur.var.simpler() {
+            for v in cur.var.simpler() {
                 let mut cand = cur.clone();
                 cand.var = v;
-                match self.judge(&cand) {
-                    Some(d) if d.kind == kind => {
+                if let Some(d) = self.judge(&cand) {
+                    if d.kind == kind {
                         cur = cand;
                         cur_diff = d;
                         changed = true;
+                        break;
                     }
-                    _ => break,
                 }
             }
             if !changed {
@@ -887,16 +982,19 @@ fn passes(ctx: &Ctx) -> Vec<Pass> {
     let mut v = vec![];
     // raw passes: nothing avoided
     v.push(Pass { name: "raw-checkpoint", vars: ALL_VARS.to_vec(), alphabet: full_alphabet(), max_ops: if q { 2 } else { 3 }, maints: CKPTS.to_vec(), wals: both.clone(), comp: false, pairs: false, pos0_upto: 1 });
-    v.push(Pass { name: "raw-reopen", vars: ALL_VARS.to_vec(), alphabet: full_alphabet(), max_ops: 2, maints: REOPENS.to_vec(), wals: both.clone(), comp: false, pairs: false, pos0_upto: 1 });
+    // (every reopen of a non-empty database runs into KF-C04-01, so the raw reopen pass is shallow)
+    v.push(Pass { name: "raw-reopen", vars: ALL_VARS.to_vec(), alphabet: full_alphabet(), max_ops: if q { 1 } else { 2 }, maints: REOPENS.to_vec(), wals: both.clone(), comp: false, pairs: false, pos0_upto: 1 });
     // row-id compensated passes (KF-C04-01 avoided) so that the rest of the reopen space is explored
     v.push(Pass { name: "comp-reopen", vars: ALL_VARS.to_vec(), alphabet: full_alphabet(), max_ops: if q { 2 } else { 3 }, maints: REOPENS.to_vec(), wals: both.clone(), comp: true, pairs: false, pos0_upto: 1 });
-    // deepest level over the reduced alphabet
-    let deep_vars = if q { vec![Var::PkIdx, Var::Auto] } else { vec![Var::NoPk, Var::PkIdx, Var::Auto, Var::Big] };
-    v.push(Pass { name: "deep-checkpoint", vars: deep_vars.clone(), alphabet: reduced_alphabet(), max_ops: if q { 3 } else { 4 }, maints: CKPTS.to_vec(), wals: both.clone(), comp: false, pairs: false, pos0_upto: 0 });
-    v.push(Pass { name: "deep-comp-reopen", vars: deep_vars, alphabet: reduced_alphabet(), max_ops: if q { 3 } else { 4 }, maints: REOPENS.to_vec(), wals: both.clone(), comp: true, pairs: false, pos0_upto: 0 });
+    // deepest level over a reduced alphabet
+    let deep_vars = if q { vec![Var::PkIdx, Var::Auto] } else { vec![Var::PkIdx, Var::Auto, Var::Big] };
+    let deep_alpha = if q { vec![Op::Ins(1), Op::Ins2(2, 3), Op::Upd(1), Op::UpdAll, Op::Del(1), Op::Trunc, Op::InsA, Op::TxnIns(3)] } else { reduced_alphabet() };
+    // (with WAL off the explicit checkpoints are no-ops on a database without WAL object: WAL on only)
+    v.push(Pass { name: "deep-checkpoint", vars: deep_vars.clone(), alphabet: deep_alpha.clone(), max_ops: if q { 3 } else { 4 }, maints: CKPTS.to_vec(), wals: vec![true], comp: false, pairs: false, pos0_upto: 0 });
+    v.push(Pass { name: "deep-comp-reopen", vars: deep_vars, alphabet: deep_alpha, max_ops: if q { 3 } else { 4 }, maints: REOPENS.to_vec(), wals: both.clone(), comp: true, pairs: false, pos0_upto: 0 });
     if !q {
-        // two maintenance ops
-        v.push(Pass { name: "pairs", vars: ALL_VARS.to_vec(), alphabet: full_alphabet(), max_ops: 2, maints: ALL_MAINT.to_vec(), wals: both, comp: true, pairs: true, pos0_upto: 1 });
+        // two maintenance ops (every ordered pair at positions p1 <= p2)
+        v.push(Pass { name: "pairs", vars: vec![Var::PkIdx, Var::Auto, Var::Big], alphabet: full_alphabet(), max_ops: 2, maints: ALL_MAINT.to_vec(), wals: both, comp: true, pairs: true, pos0_upto: 1 });
     }
     v
 }
@@ -1068,7 +1166,7 @@ impl Check for C04 {
             "passes named comp-* re-advance the global row-id counter after a reopen through inserts into a side table (avoids known finding KF-C04-01)",
         ];
         s.cap_quick_s = 90;
-        s.cap_thorough_s = 1700;
+        s.cap_thorough_s = 1500;
         vec![s]
     }
 
@@ -1085,7 +1183,7 @@ impl Check for C04 {
                 w.dfs(pass, var, &mut ops, &BTreeSet::new(), false);
             }
         }
-        let (runs, shrink_runs, acc) = (w.eng.runs, w.eng.shrink_runs, w.eng.acc.clone());
+        let (runs, shrink_runs, acc, calib_runs) = (w.eng.runs, w.eng.shrink_runs, w.eng.acc.clone(), w.eng.runner.calib_runs);
         drop(w);
         rep.count("checkpoints_that_moved_frames", acc.ckpt_frames_moved);
         rep.count("checkpoints_that_truncated_wal", acc.ckpt_wal_truncated);
@@ -1098,6 +1196,7 @@ impl Check for C04 {
                 eprintln!("TIMING worker {} runs {} create {:.1}ms stmts {:.1}ms observe {:.1}ms teardown {:.1}ms (per run, avg)", ctx.worker, runs, t[0] as f64 / 1e6 / runs as f64, t[1] as f64 / 1e6 / runs as f64, t[2] as f64 / 1e6 / runs as f64, t[3] as f64 / 1e6 / runs as f64);
             });
         }
+        rep.count("rowid_calibration_runs", calib_runs);
         rep.count("database_executions", runs);
         rep.count("executions_spent_shrinking", shrink_runs);
         rep.sample(|| json!({"variant": "pkidx", "ops": ["INS1", "UPDALL", "DEL1"], "maint": [{"pos": 2, "op": "close_reopen"}], "cfg": {"wal": true}, "meaning": "CREATE t + index; INSERT 1; close()+open; UPDATE all; DELETE 1; observe — vs. the same without close()+open"}));
